@@ -179,7 +179,11 @@ func c06Converse(r *core.Run, env *scratch.Env, fc string, tier string) {
 	}
 	for i := 0; i < n; i++ {
 		cond := rng.Bool()
-		kind := rng.Intn(3) // (the dangling-else shapes, kinds 3 and 4, are a known finding: exercised by the corpus witnesses only)
+		kind := rng.Intn(4)
+		if kind == 3 {
+			kind = 5 // nested match followed by the outer match's default arm
+		}
+		// (the dangling-else shapes, kinds 3 and 4, are a known finding: exercised by the corpus witnesses only)
 		for variant := 0; variant < 2; variant++ {
 			name := fmt.Sprintf("p%d", 2*i+variant)
 			p := &fo.Program{Pkg: name, Imports: []string{"frt"}}
@@ -219,6 +223,22 @@ func c06Converse(r *core.Run, env *scratch.Env, fc string, tier string) {
 					inner.Elifs = []fo.Elif{{Cond: &fo.Var{Name: "d"}, Body: &fo.Block{Result: trE("elif")}}}
 					inner.Else = &fo.Block{Result: trE("the-else")}
 					body = &fo.Block{Stmts: []fo.Stmt{&fo.ExprStmt{E: &fo.If{Cond: &fo.Var{Name: "c"}, Then: &fo.Block{Result: inner}}}}, Result: trE("last")}
+				}
+			case 5: // a default-less match nested as the last expression of an arm, followed by the
+				// OUTER match's `| _ ->` at the outer arms' column (variant 0); variant 1 gives the
+				// default arm to the inner match instead (one level deeper)
+				u2 := &fo.UnionDef{Name: "V", Cases: []fo.UCase{{Name: "Va"}, {Name: "Vb"}, {Name: "Vc"}}}
+				p.Decls = append(p.Decls, u2)
+				outerT := &fo.Ctor{Union: u2, Case: map[bool]int{true: 0, false: 2}[cond]}
+				innerT := &fo.Ctor{Union: u, Case: map[bool]int{true: 0, false: 1}[cond]}
+				if variant == 0 {
+					inner := &fo.MatchU{Target: &fo.Var{Name: "k"}, Union: u, Arms: []fo.UArm{{Case: 0, Body: &fo.Block{Result: trE("ia")}}, {Case: 1, Body: &fo.Block{Result: trE("ib")}}}}
+					outer := &fo.MatchU{Target: &fo.Var{Name: "w"}, Union: u2, Arms: []fo.UArm{{Case: 1, Body: &fo.Block{Result: trE("ob")}}, {Case: 0, Body: &fo.Block{Result: inner}}}, Default: &fo.Block{Result: trE("the-default")}}
+					body = &fo.Block{Stmts: []fo.Stmt{&fo.Let{Name: "k", E: innerT}, &fo.Let{Name: "w", E: outerT}, &fo.ExprStmt{E: outer}}, Result: trE("last")}
+				} else {
+					inner := &fo.MatchU{Target: &fo.Var{Name: "k"}, Union: u, Arms: []fo.UArm{{Case: 0, Body: &fo.Block{Result: trE("ia")}}}, Default: &fo.Block{Result: trE("the-default")}}
+					outer := &fo.MatchU{Target: &fo.Var{Name: "w"}, Union: u2, Arms: []fo.UArm{{Case: 1, Body: &fo.Block{Result: trE("ob")}}, {Case: 2, Body: &fo.Block{Result: trE("oc")}}, {Case: 0, Body: &fo.Block{Result: inner}}}}
+					body = &fo.Block{Stmts: []fo.Stmt{&fo.Let{Name: "k", E: innerT}, &fo.Let{Name: "w", E: outerT}, &fo.ExprStmt{E: outer}}, Result: trE("last")}
 				}
 			default: // last arm of a match used as a statement
 				target := &fo.Ctor{Union: u, Case: 0}
